@@ -185,3 +185,10 @@ class VType(Value):
 class VIndexSeq(Value):
     """Symbolic integer sequence a*k+b for k in range(n), or a concatenation of such (for symbolic permutations)."""
     parts: list            # list of (n: P, a: int, b: int)
+
+
+@dataclass
+class VClosure(Value):
+    """a function defined inside a function: its code and the frame environment it closes over (by reference)"""
+    func: object
+    env: dict
